@@ -388,6 +388,21 @@ def checkBalance [DecidableEq α] (subs : Substances σ α) (rs : List (Reaction
   | some s => if strict then .noComposition s else .ok
   | none => checkRxns subs rs 0
 
+/-- `ReactionSystem.check_substance_keys` (reactionsystem.py:312-320): every key of the four dictionaries of every reaction is a
+    key of `self.substances` -/
+def checkSubstanceKeys (subs : Substances σ α) (rs : List (Reaction σ ρ)) : Bool :=
+  rs.all fun r => (dkeys r.reac ++ dkeys r.prod ++ dkeys r.inactReac ++ dkeys r.inactProd).all fun k => dmem subs k
+
+/-- `ReactionSystem.__init__` with `checks=None` (reactionsystem.py:116-121): every check of `default_checks =
+    {balance, substance_keys, duplicate, duplicate_names}` is run with `throw=True`, so construction succeeds iff all four
+    pass (the iteration order of the Python set only decides WHICH `ValueError` is seen).  `check_duplicate` (equal reactions)
+    and `check_duplicate_names` are not modelled here: their joint outcome is the parameter `dupOk`. -/
+def constructorAccepts [DecidableEq α] (subs : Substances σ α) (rs : List (Reaction σ ρ)) (dupOk : Bool) : Bool :=
+  checkSubstanceKeys subs rs && dupOk &&
+    (match checkBalance subs rs false with
+     | .ok => true
+     | _ => false)
+
 /-- one row of `composition_balance_vectors`: `[s.composition.get(k, 0) for s in subs]` -/
 def balanceRow (key : Int) : Substances σ α → Except Err (List α)
   | [] => .ok []
